@@ -84,9 +84,9 @@ func (l *layouter) comment() string {
 	case 3:
 		return "/* multi" + l.nl() + " line */"
 	case 4:
-		return "// line comment" + l.nl()
+		return "// " + l.r.Pick("line comment", "why? because", "a > b", "k => v, $o->p", "?", "? >", ">", "<?php x", "it's \"q\" `b`", "/* not closed", "*/", "{ ( [", "\\") + l.nl()
 	case 5:
-		return "# hash comment" + l.nl()
+		return "# " + l.r.Pick("hash comment", "really?", "a->b > c", "?", ">", "$x = <<<A", "é ü") + l.nl()
 	case 6:
 		return "//" + l.nl()
 	case 7:
@@ -139,9 +139,16 @@ func (l *layouter) free(emptyOK bool) string {
 	return sb.String()
 }
 
-// Render writes the token sequence under a layout. trailing controls the trivia after the last token.
+// Render writes the token sequence under a layout.
 func Render(toks []Tok, mode int, r *core.Rand, stats map[string]int) []byte {
+	b, _ := RenderPos(toks, mode, r, stats)
+	return b
+}
+
+// RenderPos is Render that also returns the byte offset at which each token starts.
+func RenderPos(toks []Tok, mode int, r *core.Rand, stats map[string]int) ([]byte, []int) {
 	l := &layouter{r: r, mode: mode, Stats: stats}
+	offs := make([]int, 0, len(toks))
 	var out bytes.Buffer
 	prev := ""
 	first := true
@@ -187,6 +194,7 @@ func Render(toks []Tok, mode int, r *core.Rand, stats map[string]int) []byte {
 				out.WriteString(tr)
 			}
 		}
+		offs = append(offs, out.Len())
 		out.WriteString(tk.S)
 		if tk.S != "" {
 			prev = tk.S
@@ -197,5 +205,5 @@ func Render(toks []Tok, mode int, r *core.Rand, stats map[string]int) []byte {
 	if mode != LayCanon && mode != LayMinimal && r.Chance(1, 3) {
 		out.WriteString(l.free(true))
 	}
-	return out.Bytes()
+	return out.Bytes(), offs
 }
